@@ -197,7 +197,14 @@ impl Prop for C14 {
                     let want: Vec<i32> = ops.iter().map(|o| *o as i32).collect();
                     ensure!(out, labels[np..np + nchars] == want[..], "labels {:?} != operations {want:?}", &labels[np..np + nchars]);
                     ensure!(out, token_ids.len() == np + input.len() + ns, "byte token count {} != {np} + {} bytes + {ns}", token_ids.len(), input.len());
-                    let ex = expect(&c.kind, &c.special);
+                    let vocab = text_utils::tokenization::tokenizer(by_kind_cfg(&c.kind, &c.special)).and_then(|t| t.get_vocab());
+                    let ex = match vocab.map_err(|e| e.to_string()).and_then(|v| expect(&c.kind, &c.special, &v)) {
+                        Ok(e) => e,
+                        Err(e) => {
+                            out.fail(e);
+                            return out;
+                        }
+                    };
                     let pad = (256 + ex.special.iter().position(|t| *t == c.special.pad).unwrap()) as u32;
                     ensure!(out, pad_token_id == pad, "pad id {pad_token_id} != {pad}");
                 }
